@@ -13,6 +13,15 @@ import (
 	"testing/iotest"
 )
 
+type shortWriter struct{ buf *bytes.Buffer }
+
+func (x shortWriter) Write(p []byte) (int, error) {
+	if len(p) > 7 {
+		p = p[:7]
+	}
+	return x.buf.Write(p)
+}
+
 type writeOnly struct{ w io.Writer }
 
 func (x writeOnly) Write(p []byte) (int, error) { return x.w.Write(p) }
@@ -25,19 +34,20 @@ func (x stringWriter) WriteString(s string) (int, error) { return x.buf.WriteStr
 func (x stringWriter) WriteByte(c byte) error            { return x.buf.WriteByte(c) }
 
 type sinkKind struct {
-	name string
+	name    string
+	mayFail bool // a destination that misbehaves: the call may refuse it; what it must not do is report success wrongly
 	// run gives the function a writer and returns everything that reached the sink
 	run func(f func(w io.Writer) error) ([]byte, error)
 }
 
 func sinkKinds() []sinkKind {
 	return []sinkKind{
-		{"bytes.Buffer", func(f func(io.Writer) error) ([]byte, error) {
+		{name: "bytes.Buffer", run: func(f func(io.Writer) error) ([]byte, error) {
 			var b bytes.Buffer
 			err := f(&b)
 			return b.Bytes(), err
 		}},
-		{"bytes.Buffer that already holds data", func(f func(io.Writer) error) ([]byte, error) {
+		{name: "bytes.Buffer that already holds data", run: func(f func(io.Writer) error) ([]byte, error) {
 			// a frame header written first, a buffer reused without Reset: what the call writes comes after it
 			var b bytes.Buffer
 			b.WriteString("frame-header:")
@@ -45,7 +55,7 @@ func sinkKinds() []sinkKind {
 			err := f(&b)
 			return append([]byte{}, b.Bytes()[n:]...), err
 		}},
-		{"os.File", func(f func(io.Writer) error) ([]byte, error) {
+		{name: "os.File", run: func(f func(io.Writer) error) ([]byte, error) {
 			fl, err := os.CreateTemp("", "vh-sink-*")
 			if err != nil {
 				return nil, err
@@ -62,17 +72,23 @@ func sinkKinds() []sinkKind {
 			}
 			return all[4:], nil
 		}},
-		{"write-only", func(f func(io.Writer) error) ([]byte, error) {
+		{name: "short writes without an error", mayFail: true, run: func(f func(io.Writer) error) ([]byte, error) {
+			// takes at most 7 bytes per call and says so through the count only
+			var b bytes.Buffer
+			err := f(shortWriter{&b})
+			return b.Bytes(), err
+		}},
+		{name: "write-only", run: func(f func(io.Writer) error) ([]byte, error) {
 			var b bytes.Buffer
 			err := f(writeOnly{&b})
 			return b.Bytes(), err
 		}},
-		{"string+byte writer", func(f func(io.Writer) error) ([]byte, error) {
+		{name: "string+byte writer", run: func(f func(io.Writer) error) ([]byte, error) {
 			var b bytes.Buffer
 			err := f(stringWriter{&b})
 			return b.Bytes(), err
 		}},
-		{"bufio.Writer", func(f func(io.Writer) error) ([]byte, error) {
+		{name: "bufio.Writer", run: func(f func(io.Writer) error) ([]byte, error) {
 			var b bytes.Buffer
 			bw := bufio.NewWriterSize(&b, 16)
 			err := f(bw)
@@ -81,7 +97,7 @@ func sinkKinds() []sinkKind {
 			}
 			return b.Bytes(), err
 		}},
-		{"io.Pipe", func(f func(io.Writer) error) ([]byte, error) {
+		{name: "io.Pipe", run: func(f func(io.Writer) error) ([]byte, error) {
 			pr, pw := io.Pipe()
 			done := make(chan []byte)
 			go func() {
